@@ -17,7 +17,8 @@ Property theorems only. Two layers:
 * **instances over the regenerated tables** `Spine.Generated.Locks` (written by `go/lockgraph`
   from the tree under test on every run; `decide`, so a code change that alters a row re-checks
   them): `c17_lock_order_ranked`, `c17_no_lock_leak`, `c17_guarded_by`, `c17_common_lock_sound`,
-  `c17_undisciplined_exact`, `c17_tables_wellformed`, `c17_package_state_guarded`;
+  `c17_undisciplined_exact`, `c17_tables_wellformed`, `c17_package_state_guarded`,
+  `c17_no_shared_address_escapes`;
 * **connection** of the two: `c17_no_deadlock`, `c17_disciplined_fields_ordered` (exclusive mutex
   model), `c17_disciplined_fields_ordered_rw` (reader/writer model, covers every disciplined field);
 * **reader/writer deadlocks** (`Spine.LockRW`: Go's blocking rule with queued writers, refinement to
@@ -163,6 +164,21 @@ theorem c17_no_lock_leak : lockLeaks = [] ∧ unknownLockSites = [] ∧ unbalanc
     If one is ever resolved in `go/lockgraph/selfedges.json`, this theorem is to be replaced by the
     list, which then belongs to the trusted base. -/
 theorem c17_no_hand_resolved_self_edge : resolvedSelfEdges = [] := by decide
+
+/-- **No address of a shared field escapes; no field is used both atomically and plainly
+    (instance).** The guarded-by rows attribute loads and stores through a field's address inside
+    the function that takes it. No function of the tree under test lets the address of a field that
+    is written after construction leave it (passed to a call, stored, returned, captured, made an
+    interface) other than as operand of `sync/atomic` or receiver of a method of the module — so no
+    access through a stray pointer is missing from the rows — and no field that is used atomically
+    also has a plain access after construction (a mixed atomic/plain pair is a data race that no
+    mutex row would show). -/
+theorem c17_no_shared_address_escapes : addressEscapes = [] ∧ mixedAtomic = [] := by decide
+
+/-- non-vacuity (independent of the generated rows): the same predicate fails on a table with an
+    escaping address -/
+example : ¬ (["spine.X.f: address passed to g in X.m (x.go:1)"] = ([] : List String) ∧ ([] : List String) = []) := by
+  decide
 
 /-- the post-construction rows of a field -/
 def postRows (f : Nat) : List Access := accesses.filter (fun a => a.field == f && a.post)
